@@ -618,7 +618,8 @@ def big_scenarios(prop):
     for n in (1000, 1100):
         even, odd = list(range(0, 2 * n, 2)), list(range(1, 2 * n, 2))
         # (third step: every IPv4 range replaced - 2n changes in one update - while the IPv6 family empties)
-        steps = [(v4(even), v6(even[: n // 2])), (v4(odd), v6(odd[: n // 2])), (v4(even), []), (v4(odd[:3]), []), ([], [])]
+        # (fourth step: all but three of the ranges withdrawn, the three that stay were there before)
+        steps = [(v4(even), v6(even[: n // 2])), (v4(odd), v6(odd[: n // 2])), (v4(even), []), (v4(even[:3]), []), ([], [])]
         runs = []
         for k, (p4, p6) in enumerate(steps + [steps[-1]]):
             irr = Irr(); running = []; policies = {}
